@@ -2,7 +2,7 @@
 
 from __future__ import annotations
 
-import ast
+import ast, copy
 import json
 import os
 import re
@@ -644,12 +644,18 @@ def stage_split_fields(ctx: Ctx):
                     node.put_slice(', '.join(newl) if newl else None, s0, e0, field)
                 except Exception as ex:
                     ctx.tick((src, field, s0, e0, tuple(newl), 'refused'), 'split:refused')
+                    if field != 'keywords' and kw_nodes and 'follow' in str(ex):
+                        aterms.append(f'Bool.eqb (args_guard_refuses {tags} {s0} {e0} {cbool(bool(newl))}) true')
+                        ameta.append({'src': src, 'field': field, 'start': s0, 'stop': e0, 'code': bool(newl), 'merged_order': [t for _, _, t in merged], 'real_refuses': True, 'error': str(ex)[:100]})
                     if (m.src, ast.dump(m.a)) != before:
                         ctx.violation(f'split-refused-dirty|{field}', 'a refused slice put changed source or tree', {**desc, 'error': repr(ex)[:200], 'src_now': m.src})
                     elif not isinstance(ex, (fst.NodeError, ValueError, SyntaxError)):
                         ctx.violation(f'split-crash|{field}|{type(ex).__name__}', 'a slice put crashed', {**desc, 'error': repr(ex)[:200]})
                     continue
                 ctx.tick((src, field, s0, e0, tuple(newl)), 'split:' + field)
+                if field != 'keywords' and kw_nodes:
+                    aterms.append(f'Bool.eqb (args_guard_refuses {tags} {s0} {e0} {cbool(bool(newl))}) false')
+                    ameta.append({'src': src, 'field': field, 'start': s0, 'stop': e0, 'code': bool(newl), 'merged_order': [t for _, _, t in merged], 'real_refuses': False})
                 got = [ast.unparse(x) for x in getattr(node.a, field)]
                 other_after = [ast.dump(x) for x in getattr(node.a, other)]
                 try:
@@ -660,7 +666,7 @@ def stage_split_fields(ctx: Ctx):
                     ctx.violation(f'split|structure|{type(node.a).__name__}.{field}', 'resulting field differs from old[:start] + new + old[stop:], or the other argument field changed, or the source does not parse to the tree',
                                   {**desc, 'result_src': m.src, 'expected_field': exp, 'got_field': got, 'other_field_unchanged': other_after == other_before, 'source_parses_to_tree': re_ok})
     failed = coq_eval_bools('C03_arglikes', 'From Coq Require Import List Bool Arith.\nFrom PF Require Import models.Arglikes.\nImport ListNotations.\n', aterms, shard=500)
-    ctx.correspondence('models/Arglikes.v kw_pos / guard_refuses == merged source order of args+keywords and the refusal of keyword insertions by real put_slice', len(aterms), [ameta[k] for k in failed])
+    ctx.correspondence('models/Arglikes.v kw_pos / guard_refuses / args_guard_refuses == merged source order of args+keywords, the refusal of keyword insertions and the refusal of args / bases slice edits by real put_slice', len(aterms), [ameta[k] for k in failed])
 
 
 def stage_with_items_and_names(ctx: Ctx):
@@ -751,6 +757,105 @@ def stage_with_items_and_names(ctx: Ctx):
                                   {**desc, 'result_src': m.src, 'expected': ast.unparse(want)})
 
 
+def stage_needy_elements(ctx: Ctx):
+    """deterministic: ONE element that needs its own parentheses where it lands (lambda / conditional / walrus / nested same-operator / tuple / generator), given as source
+    without them, as FST and as pure AST, put into every position through every single-element and one-element-slice entry point: the result is
+    old[:i] + [element] + old[j:] - the element stays one element"""
+    import fst
+    hosts = [('v = a and b and c\n', 'm.body[0].value', 'values', ' and ', ['lambda: x', 'y if z else w', 'p or q', 'n := 1', 'p and q']),
+             ('v = a or b or c\n', 'm.body[0].value', 'values', ' or ', ['lambda: x', 'y if z else w', 'p or q', 'n := 1']),
+             ('match s:\n    case a | b | c: pass\n', 'm.body[0].cases[0].pattern', 'patterns', ' | ', ['l as k', 'x | y']),
+             ('v = a, b, c\n', 'm.body[0].value', 'elts', ', ', ['n := 1', 'p, q', 'lambda: x', 'y if z else w']),
+             ('def f():\n    return a, b, c\n', 'm.body[0].body[0].value', 'elts', ', ', ['n := 1', 'p, q', 'yield r']),
+             ('v = g[a, b, c]\n', 'm.body[0].value.slice', 'elts', ', ', ['p, q', 'y if z else w']),
+             ('with a, b, c: pass\n', 'm.body[0]', 'items', ', ', ['p, q']),
+             ('v = [e for e in it if a if b if c]\n', 'm.body[0].value.generators[0]', 'ifs', ' if ', ['lambda: x', 'y if z else w', 'n := 1']),
+             ('f(a, b, c)\n', 'm.body[0].value', 'args', ', ', ['e for e in it']),
+             ('v = a < b < c\n', 'm.body[0].value', 'comparators', None, ['lambda: x', 'y if z else w', 'p < q', 'n := 1', 'p or q'])]
+    for src, path, field, sep, needy in hosts:
+        base = fst.FST(src, 'exec')
+        n = len(getattr(eval(path, {'m': base}).a, field))
+        for el in needy:
+            try:
+                el_ast = ast.parse('(' + el + ')', mode='eval').body if field != 'patterns' else ast.parse(f'match _:\n case ({el}): pass').body[0].cases[0].pattern
+            except SyntaxError as e:
+                ctx.broken.append({'kind': 'harness', 'name': 'needy', 'detail': f'{el!r}: {e!r}'})
+                continue
+            if field == 'items':
+                el_ast = ast.withitem(context_expr=el_ast, optional_vars=None)
+            for i in range(n + 1):
+                for ep in ('put', 'view_setitem', 'child_replace', 'put_slice_one', 'subview_replace', 'insert', 'view_insert', 'append', 'prepend', 'put_slice_insert_one'):
+                    replace = ep in ('put', 'view_setitem', 'child_replace', 'put_slice_one', 'subview_replace')
+                    if (replace and i == n) or (ep == 'append' and i != n) or (ep == 'prepend' and i != 0):
+                        continue
+                    for form in ('src', 'fst', 'ast'):
+                        m = fst.FST(src, 'exec')
+                        node = eval(path, {'m': m})
+                        if form == 'src':
+                            code = el
+                        else:
+                            try:
+                                code = fst.FST(el, 'pattern' if field == 'patterns' else 'expr')
+                            except Exception:
+                                continue
+                            if form == 'ast':
+                                code = code.a
+                        desc = {'src': src, 'field': field, 'element': el, 'index': i, 'entry': ep, 'form': form}
+                        try:
+                            view = getattr(node, field)
+                            if ep == 'put':
+                                node.put(code, i, field)
+                            elif ep == 'view_setitem':
+                                view[i] = code
+                            elif ep == 'child_replace':
+                                view[i].replace(code)
+                            elif ep == 'put_slice_one':
+                                node.put_slice(code, i, i + 1, field, one=True)
+                            elif ep == 'subview_replace':
+                                view[i:i + 1].replace(code, one=True)
+                            elif ep == 'insert':
+                                node.insert(code, i, field, one=True)
+                            elif ep == 'view_insert':
+                                view.insert(code, i, one=True)
+                            elif ep == 'append':
+                                view.append(code)
+                            elif ep == 'prepend':
+                                view.prepend(code)
+                            else:
+                                node.put_slice(code, i, i, field, one=True)
+                        except Exception as ex:
+                            ctx.tick(None, 'needy:refused')
+                            continue
+                        ctx.tick(('needy', src, el, i, ep, form), 'needy:' + ep)
+                        # expected: the element, parenthesized, at position i of the rendered list
+                        want_root = ast.parse(src)
+                        wnode = eval(path.replace('m.', 'w.', 1), {'w': want_root})
+                        lst = getattr(wnode, field)
+                        if replace:
+                            lst[i:i + 1] = [el_ast]
+                        else:
+                            lst[i:i] = [el_ast]
+                        if field == 'comparators':
+                            ops = wnode.ops
+                            if not replace:
+                                ops[i:i] = [copy.deepcopy(ops[min(i, len(ops) - 1)])]
+                        want = canon(want_root)
+                        got_live = canon(m.a)
+                        try:
+                            got_src = canon(ast.parse(m.src))
+                        except SyntaxError as ex:
+                            got_src = ('SyntaxError', str(ex))
+                        if field == 'comparators' and not replace:
+                            # which operator is repeated for an inserted operand is the implementation's choice: compare the operands only
+                            strip = lambda c: repr(c).replace("'Lt'", "'_'")
+                            ok = len(getattr(eval(path, {'m': m}).a, field)) == n + 1 and got_live == got_src
+                        else:
+                            ok = got_live == want and got_src == want
+                        if not ok:
+                            ctx.violation(f'needy-element|{type(node.a).__name__}.{field}|{ep}|{form}', 'an element that needs its own parentheses did not stay ONE element of the sequence',
+                                          {**desc, 'result_src': m.src, 'live_equals_expected': got_live == want, 'reparsed_equals_expected': got_src == want})
+
+
 def run(ctx: Ctx):
     ctx.rule = ('(1) exhaustive small-domain + random 64-bit argument tuples for the translated index functions, model (vm_compute) vs '
                 'real function vs Python list; (2) random FSTView op sequences, model vs real, distinct = (field kind, op-name sequence, '
@@ -770,6 +875,7 @@ def run(ctx: Ctx):
     run_guarded(ctx, stage_orelse_sweep)
     run_guarded(ctx, stage_split_fields)
     run_guarded(ctx, stage_with_items_and_names)
+    run_guarded(ctx, stage_needy_elements)
 
 
 def replay(path):
